@@ -12,7 +12,7 @@ import (
 	"fmt"
 	"io"
 	"net"
-	neturl "net/url"
+	"sort"
 	"strconv"
 	"strings"
 	"sync"
@@ -309,7 +309,9 @@ func pubCase(c Val) Val {
 			}
 			outs = append(outs, L(I(2), opt(s)))
 		case 4:
-			outs = append(outs, pubRequest(w, op.At(1).Str()))
+			r := pubRequest(w, op.At(1).Str())
+			// the whole registry after the request: exact keys and the streams under them (newest stream first)
+			outs = append(outs, L(append(r.List(), regSnapshot(w))...))
 		case 5:
 			outs = append(outs, L(I(2), opt(media.Get(op.At(1).Str()))))
 		default:
@@ -321,6 +323,30 @@ func pubCase(c Val) Val {
 		}
 	}
 	return L(outs...)
+}
+
+// registry snapshot ordered by stream id, newest first (the order of the model's association list:
+// every stream is registered once, when it is created, in front of the list)
+func regSnapshot(w *pubWorld) Val {
+	type ent struct {
+		k  string
+		id int64
+	}
+	var es []ent
+	for k, s := range media.VerifRegistry() {
+		es = append(es, ent{k, w.id(s)})
+	}
+	sort.Slice(es, func(i, j int) bool {
+		if es[i].id != es[j].id {
+			return es[i].id > es[j].id
+		}
+		return es[i].k < es[j].k
+	})
+	vs := []Val{}
+	for _, e := range es {
+		vs = append(vs, L(S(e.k), I(e.id)))
+	}
+	return L(vs...)
 }
 
 // one GetOrCreate and everything observable about it
@@ -336,9 +362,7 @@ func pubRequest(w *pubWorld, path string) (out Val) {
 	after := idleTasks()
 	seen := []Val{}
 	for _, u := range pubCam.take() {
-		if pu, err := neturl.PathUnescape(u); err == nil {
-			u = pu // the client escapes blanks inside the path; spelling of an escape is not an observable
-		}
+		u = strings.Replace(u, "%20", " ", -1) // the client escapes a blank inside the path; the generator never writes %20 itself
 		seen = append(seen, S(toSym(u)))
 	}
 	sid := func() Val {
